@@ -136,6 +136,8 @@ theorem frozen_step (s : State) (i : Nat) (τ : Timer) (hi : s.timers[i]? = some
   | drain => exact hi
   | target => exact hi
   | mark => exact hi
+  | hold => exact hi
+  | psrelease => exact hi
 
 theorem finished_frozen' (s : State) (i : Nat) (τ : Timer) (hi : s.timers[i]? = some τ)
     (hf : τ.res ≠ .pending) (ops : List Op) : (steps s ops).timers[i]? = some τ := by
@@ -205,5 +207,11 @@ theorem exit_reason' {s : State} (h : Inv s) (r : Reason) (te : Nat) (he : s.tar
     · exact .inr ⟨τ, hτ, hk, t, ht,
         (oneShot_once_never_early' h τ hτ (by simp [hk, Kind.oneShot])).2 t ht, hle⟩
   · intro e; subst e; exact hr
+
+theorem handle_reports_send' {s : State} (h : Inv s) (τ : Timer) (hτ : τ ∈ s.timers)
+    (hk : τ.kind = .sendAfter) :
+    (τ.res = .ok → ∀ tc, s.target.closedAt = some tc → ∀ t ∈ τ.sentAt, t ≤ tc) ∧
+    (τ.res = .err → ∃ tc, s.target.closedAt = some tc ∧ ∀ t ∈ τ.sentAt, tc ≤ t) :=
+  (h.tinv τ hτ).accept hk
 
 end Timers
